@@ -116,6 +116,46 @@ main(int argc, char **argv)
 			}
 		}
 	}
+	// "... and does not leave the object in a state where later calls misbehave": with the failure over, a FRESH
+	// requester must be able to connect to the same listener and get an answer from the same REP socket
+	if (rep_open && listening && valloc_failures_fired() > 0) {
+		nng_socket req2;
+		valloc_fail_at(0);
+		if (step("after_open", nng_req0_open(&req2)) == 0) {
+			nng_msg *m = NULL, *r = NULL;
+			int      rv;
+			nng_socket_set_ms(req2, NNG_OPT_RECVTIMEO, 3000);
+			nng_socket_set_ms(req2, NNG_OPT_SENDTIMEO, 3000);
+			nng_socket_set_ms(rep, NNG_OPT_RECVTIMEO, 3000);
+			// the listener may be in its 10 ms cool-down after a failed accept: a refused/reset first attempt
+			// is retried for a second
+			for (int i = 0; (rv = nng_dial(req2, url, NULL, 0)) != 0 && i < 20; i++) {
+				nng_msleep(50);
+			}
+			if (step("after_dial", rv) == 0 && step("after_req_send", nng_send(req2, "pong", 5, 0)) == 0) {
+				// a request of the first requester may still be queued in front of ours
+				for (int i = 0; i < 3; i++) {
+					rv = nng_recvmsg(rep, &m, 0);
+					if (rv != 0 || (nng_msg_len(m) == 5 && memcmp(nng_msg_body(m), "pong", 5) == 0)) {
+						break;
+					}
+					nng_msg_free(m);
+					m = NULL;
+				}
+				if (step("after_rep_recv", rv) == 0) {
+					if (step("after_rep_send", nng_sendmsg(rep, m, 0)) != 0) {
+						nng_msg_free(m);
+					} else if (step("after_req_recv", nng_recvmsg(req2, &r, 0)) == 0) {
+						if (nng_msg_len(r) != 5 || memcmp(nng_msg_body(r), "pong", 5) != 0) {
+							printf("corrupt reply\n");
+						}
+						nng_msg_free(r);
+					}
+				}
+			}
+			step("after_close", nng_socket_close(req2));
+		}
+	}
 	{
 		nng_stat *st = NULL;
 		if (step("stats", nng_stats_get(&st)) == 0) {
